@@ -9,16 +9,16 @@ Well-formedness of checkpoint files: Spec/CheckpointSpec.lean.
   `checkpoint_file_selection`  what is read from one well-formed file (3 layouts)
   `checkpoint_it_exact`        T4 for checkpoints: one iteration, every requested variable:
                                the stored interior grid in (x, y, z) order and the stored time
-  `checkpoint_table_exact`     all requested iterations: `data['it']`, `data['t']` and every
-                               variable column, one entry per iteration, in order
+  `checkpoint_table_exact`     all requested iterations, ANY request list (a name twice, `gxx`
+                               next to `gammadown3`, `alp` next to `alpha`: read once, /repo a25772a):
+                               `data['it']`, `data['t']` and every variable column, exactly one entry
+                               per iteration, in order
   `checkpoint_pipeline_exact`  `read_ET_data(usecheckpoints=True)`: several restarts with
                                overlapping checkpoint lists, any request: rows from the latest
                                restart holding the checkpoint, aligned
-  `checkpoint_table_exact_needs_nodup`  the hypothesis `var.Nodup` cannot be dropped: a variable
-                               requested twice (e.g. `gxx` next to `gammadown3`, `alp` next to
-                               `alpha`) gets TWO entries per iteration in its column, so its
-                               entry number i is not iteration number i (concrete witness,
-                               replayed on the real code)
+  `checkpoint_duplicate_names_read_once`  the former failing witness, now one entry per iteration
+  `checkpoint_prefix_body_duplicates`     (a Lean fact about the body WITHOUT the de-duplication =
+                               the code before a25772a, not replayed: two entries per iteration)
 
 NOT covered: the same variable name in two thorns of one file (not modelled);
 checkpoint files of one restart written with different process counts
@@ -50,28 +50,30 @@ theorem checkpoint_it_exact {α : Type} (cmax : CMax) (files : List (CFile α)) 
     readIt cmax files iit rl var = some (some (tm, var.map fun v => fixij (A v))) :=
   readIt_good cmax files iit rl var hn hvar A tm h
 
-/-- **all requested iterations**: `data['it']` is the sorted set of the request,
-`data['t']` and every variable column hold one entry per iteration, in that
-order.  (`toAurel` = `transform_vars_ET_to_aurel`, injective on the requested
-names and never `'t'`.) -/
+/-- **all requested iterations, any request list**: `data['it']` is the sorted set of the
+requested iterations; `data['t']` and every variable column hold exactly one entry per
+iteration, in that order; a variable named several times in the request has ONE column
+(`var.eraseDups` = `list(dict.fromkeys(var))`).  (`toAurel` =
+`transform_vars_ET_to_aurel`, injective on the requested names and never `'t'`.) -/
 theorem checkpoint_table_exact {α : Type} (toAurel : String → String) (files : List (CFile α)) (var : List String)
-    (hn : var.Nodup) (hvar : var ≠ []) (hinj : ∀ a ∈ var, ∀ b ∈ var, toAurel a = toAurel b → a = b)
+    (hvar : var ≠ []) (hinj : ∀ a ∈ var, ∀ b ∈ var, toAurel a = toAurel b → a = b)
     (ht : ∀ v ∈ var, toAurel v ≠ "t") (its : List Nat) (rl : Nat) (cmax : CMax)
     (hc : findCmax files (sortedSet its) = some cmax) (A : Nat → String → Arr3 α) (tm : Nat → Nat)
     (hgood : ∀ iit ∈ sortedSet its, GoodIt cmax files iit rl var (A iit) (tm iit)) :
     readCheckpoints toAurel files var its rl
       = some ⟨sortedSet its, ("t", (sortedSet its).map fun i => Cell.t (tm i))
-          :: var.map fun v => (toAurel v, (sortedSet its).map fun i => Cell.arr (fixij (A i v)))⟩ :=
-  readCheckpoints_good toAurel files var hn hvar hinj ht its rl cmax hc A tm hgood
+          :: var.eraseDups.map fun v => (toAurel v, (sortedSet its).map fun i => Cell.arr (fixij (A i v)))⟩ :=
+  readCheckpoints_good toAurel files var hvar hinj ht its rl cmax hc A tm hgood
 
 /-- **whole checkpoint pipeline**: `read_ET_data(it=its, usecheckpoints=True, restart=-1)`
-over any number of restarts whose checkpoint lists overlap in any way: one row
-per requested iteration that is a checkpoint of some restart, increasing; row
-`(it, r)` with `r` the LAST restart listing `it`; the `t` entry and every
-variable entry of that row are the time and the interior grids stored in restart
-`r`'s checkpoint of iteration `it`. -/
+over any number of restarts whose checkpoint lists overlap in any way, any request
+(duplicate names included): one row per requested iteration that is a checkpoint of some
+restart, increasing; row `(it, r)` with `r` the LAST restart listing `it`; the `t` entry
+and every variable entry of that row are the time and the interior grids stored in
+restart `r`'s checkpoint of iteration `it`; no `None`.  (Nothing to read: the empty
+dictionary.) -/
 theorem checkpoint_pipeline_exact {α : Type} (toAurel : String → String) (cats : List Cat)
-    (hnd : (cats.map (·.num)).Nodup) (files : Nat → List (CFile α)) (var : List String) (hn : var.Nodup)
+    (hnd : (cats.map (·.num)).Nodup) (files : Nat → List (CFile α)) (var : List String)
     (hvar : var ≠ []) (hinj : ∀ a ∈ var, ∀ b ∈ var, toAurel a = toAurel b → a = b)
     (ht : ∀ v ∈ var, toAurel v ≠ "t") (rl : Nat) (cm : Nat → CMax)
     (A : Nat → Nat → String → Arr3 α) (tm : Nat → Nat → Nat)
@@ -79,11 +81,10 @@ theorem checkpoint_pipeline_exact {α : Type} (toAurel : String → String) (cat
     (hgood : ∀ r it, pick true cats it = some r → GoodIt (cm r) (files r) it rl var (A r it) (tm r it))
     (its : List Nat) :
     readETData true cats none its (fun r l => readCheckpoints toAurel (files r) var l rl)
-      = if rowsOf true cats its = [] then none
-        else some ((rowsOf true cats its).map Prod.fst,
-                   aligned ("t" :: var.map toAurel) fun k =>
-                     (rowsOf true cats its).map fun p => ckCell toAurel var A tm p.2 k p.1) :=
-  checkpoint_pipeline_lemma toAurel cats hnd files var hn hvar hinj ht rl cm A tm hcm hgood its
+      = some ((rowsOf true cats its).map Prod.fst,
+              aligned (if rowsOf true cats its = [] then [] else "t" :: var.eraseDups.map toAurel) fun k =>
+                (rowsOf true cats its).map fun p => some (ckCell toAurel var.eraseDups A tm p.2 k p.1)) :=
+  checkpoint_pipeline_lemma toAurel cats hnd files var hvar hinj ht rl cm A tm hcm hgood its
 
 /-! ### witnesses -/
 
@@ -105,11 +106,18 @@ def ckShow (T : Table (Cell Nat)) : List Nat × List (String × List (List Nat))
     | Cell.t x => [x]
     | Cell.arr a => a.flatten.flatten))
 
-/-- The hypothesis `var.Nodup` of `checkpoint_table_exact` is necessary: with the
-variable requested twice its column gets two entries per iteration — entry 1 of
-the column is iteration 0 again, not iteration 8. -/
-theorem checkpoint_table_exact_needs_nodup :
+/-- the former failing witness: the variable requested twice is read once, its column has one
+entry per iteration (iteration 8 receives iteration 8's data) -/
+theorem checkpoint_duplicate_names_read_once :
     (readCheckpoints id ckFiles ["alp", "alp"] [0, 8] 0).map ckShow
+      = some ([0, 8], [("t", [[500], [508]]), ("alp", [[50], [58]])]) := by
+  decide +kernel
+
+/-- NOT the current code: the body of `read_ET_checkpoints` WITHOUT `var = list(dict.fromkeys(var))`
+(the code before /repo a25772a) gave the doubled column two entries per iteration — the failing
+input that the proof attempt of `checkpoint_table_exact` had produced.  Kept as a Lean fact only. -/
+theorem checkpoint_prefix_body_duplicates :
+    (readCheckpointsCore id ckFiles ["alp", "alp"] [0, 8] 0).map ckShow
       = some ([0, 8], [("t", [[500], [508]]), ("alp", [[50], [50], [58], [58]])]) := by
   decide +kernel
 
@@ -160,9 +168,11 @@ theorem ckGoodIt (it v : Nat) (hit : it = 0 ∨ it = 8) (hv : v = 50 + it) :
     · exact ⟨⟨rfl, rfl, rfl, hpad⟩, trivial⟩
     · exact ⟨⟨rfl, rfl, rfl, hpad⟩, trivial⟩
 
-/-- hypotheses of `checkpoint_it_exact` / `checkpoint_table_exact` are satisfiable, and the
-conclusion on this instance by evaluation -/
+/-- hypotheses of `checkpoint_it_exact` / `checkpoint_table_exact` are satisfiable (also with the name
+twice in the request), and the conclusion on this instance by evaluation -/
 example : GoodIt CMax.inFile ckFiles 8 0 ["alp"] (fun _ => [[[58]]]) 508 := ckGoodIt 8 58 (Or.inr rfl) rfl
+example : GoodIt CMax.inFile ckFiles 8 0 ["alp", "alp"] (fun _ => [[[58]]]) 508 :=
+  goodIt_congr (var := ["alp"]) (by intro v hv; simpa using hv) (ckGoodIt 8 58 (Or.inr rfl) rfl)
 example : findCmax ckFiles (sortedSet [8, 0, 8]) = some CMax.inFile := by
   have : sortedSet [8, 0, 8] = [0, 8] := by decide
   rw [this]; rfl
